@@ -78,7 +78,7 @@ impl EntityReactionAccessTracker
             debug_assert!(false);
             return;
         };
-        let (system, source, reaction) = self.prepared.swap_remove(pos);
+        let (system, source, reaction) = self.prepared.remove(pos);
 
         debug_assert!(!self.currently_reacting);
         self.currently_reacting = true;
